@@ -5,11 +5,12 @@ ROOT = os.path.dirname(os.path.dirname(os.path.abspath(__file__)))
 sys.path.insert(0, os.path.join(ROOT, 'lib'))
 from specs import SPECS, NOT_APPLICABLE
 
+READY = set(open(os.path.join(ROOT, 'lib', 'ready.txt')).read().split())
 props = [json.loads(l) for l in open(os.path.join(ROOT, 'properties.jsonl')) if l.strip()]
 checks, na = [], []
 for p in props:
     pid = p['id']
-    if pid in SPECS:
+    if pid in SPECS and pid in READY:
         s = SPECS[pid]
         checks.append({
             'property_id': pid,
